@@ -90,7 +90,10 @@ def tree(op):
     if n == "MulLinearOperator":
         return "Mul(*)"
     ch = children(op)
-    return MODELLED[n] + ("(" + ",".join(tree(c) for c in ch) + ")" if ch else "")
+    flag = ""
+    if n in ("TriangularLinearOperator", "CholLinearOperator", "KroneckerProductTriangularLinearOperator"):
+        flag = "[U]" if getattr(op, "upper", False) else "[L]"   # orientation is part of the class tree
+    return MODELLED[n] + flag + ("(" + ",".join(tree(c) for c in ch) + ")" if ch else "")
 
 
 def collapse_mul(t):
@@ -168,6 +171,8 @@ def enc(op):
             and len(op.linear_ops) == 2:
         tag = {"KroneckerProductLinearOperator": "K", "KroneckerProductTriangularLinearOperator": "KT",
                "KroneckerProductDiagLinearOperator": "KD"}[n]
+        if tag == "KT":
+            tag = f"KT {1 if getattr(op, 'upper', False) else 0}"
         return f"{tag} {sub(op.linear_ops[0])} {sub(op.linear_ops[1])}"
     if n in ("AddedDiagLinearOperator", "KroneckerProductAddedDiagLinearOperator", "LowRankRootAddedDiagLinearOperator"):
         tag = {"AddedDiagLinearOperator": "AD", "KroneckerProductAddedDiagLinearOperator": "KAD",
@@ -459,6 +464,39 @@ def closed_forms(R, chk, cell, desc, res, dense, payload):
                  opkind=nm)
 
 
+TRI_FAMILY = ("Triangular[lower]", "Triangular[upper]", "Diag", "Diag[signed]", "ConstantDiag", "Identity", "Chol[lower]", "Chol[upper]",
+              "KroneckerDiag", "KroneckerTriangular")
+STRUCTURED = ("TriangularLinearOperator", "DiagLinearOperator", "ConstantDiagLinearOperator", "IdentityLinearOperator",
+              "KroneckerProductDiagLinearOperator", "KroneckerProductTriangularLinearOperator", "CholLinearOperator")
+
+
+def tri_followups(R, chk, cell, desc, res, dense, payload):
+    """The product of triangular / diagonal / Cholesky operators: a structured result (Triangular, Diag, Chol …) must also solve,
+    invert and take log-determinants like its dense value — a wrong `upper` flag reads the wrong triangle."""
+    n = dense.shape[-1]
+    if dense.shape[-2] != n:
+        return
+    det = torch.linalg.det(dense)
+    if not bool((det.abs() > 1e-6).all()):
+        return
+    rhs = torch.arange(1, 2 * n + 1, dtype=dense.dtype).reshape(n, 2) / n
+    structured = type(res).__name__ in STRUCTURED
+    sym_pd = bool(torch.allclose(dense, dense.mT)) and bool((torch.linalg.cholesky_ex(dense).info == 0).all())
+    todo = []
+    if structured or sym_pd:
+        todo.append(("solve", lambda o: o.solve(rhs.clone()), lambda d: torch.linalg.solve(d, rhs.expand(*d.shape[:-2], n, 2))))
+        if bool((det > 0).all()):
+            todo.append(("logdet", lambda o: o.logdet(), lambda d: torch.logdet(d)))
+    if structured:
+        todo.append(("inverse", lambda o: o.inverse(), lambda d: torch.linalg.inv(d)))
+    if sym_pd:
+        todo.append(("cholesky", lambda o: (lambda c: c @ c.mT)(o.cholesky()), lambda d: d))
+    for nm, fi, fs in todo:
+        chk.count("op:followup-" + nm)
+        R.record(f"{cell}/{nm}", f"{nm}({desc})", lambda fi=fi: fi(res), lambda fs=fs: fs(dense), dict(payload, followup=nm), exact=False,
+                 opkind=nm)
+
+
 def pair_line(op, A, B):
     if not (is_op(A) and is_op(B)):
         return None
@@ -526,6 +564,8 @@ def run_pairs(R, chk, thorough):
                     res = R.record(cell, desc, impl, spec, payload, exact=exact, model=line)
                     if op == "add" and res is not None and is_op(res) and a.psd and b.psd and a.name.split("(")[0] in SUM_FAMILY:
                         closed_forms(R, chk, cell, desc, res, spec(), payload)
+                    if op == "matmul" and res is not None and is_op(res) and a.name in TRI_FAMILY and b.name in TRI_FAMILY:
+                        tri_followups(R, chk, cell, desc, res, spec(), payload)
 
 
 SCALARS = [("py2", 2.0), ("py0.5", 0.5), ("pyneg", -3.0), ("py0", 0.0), ("py4", 4.0), ("t0d4", "t4"), ("t0dneg", "t-1"),
@@ -866,6 +906,83 @@ def run_size1(R, chk, thorough):
         R.record = rec0
 
 
+
+# ----------------------------------------------------------------------------------------------- mixed batch ranks
+MIX_SMALL = ("Dense", "Diag", "Toeplitz", "Triangular[lower]", "Root", "ConstantDiag")
+MIX_KINDS = {"32v2": ((3, 2), (2,)), "0v32": ((), (3, 2)), "31v2": ((3, 1), (2,)), "2v32": ((2,), (3, 2)), "32v12": ((3, 2), (1, 2))}
+
+
+def rewrite_cases(shape):
+    """Unary batch rewrites of an operator of the given shape (each rebuilds the operator in some way)."""
+    nb = len(shape) - 2
+    nd = nb + 2
+    import itertools
+    cs = [("mT", lambda o: o.mT, lambda d: d.mT),
+          ("clone-unsqueeze1", lambda o: o.clone().unsqueeze(min(1, nb)), lambda d: d.unsqueeze(min(1, nb))),
+          ("expand-new", lambda o: o.expand(2, *shape), lambda d: d.expand(2, *shape)),
+          ("_expand_batch", lambda o: o._expand_batch(torch.Size((2,) + tuple(shape[:-2]))), lambda d: d.expand(2, *shape)),
+          ("repeat-new", lambda o: o.repeat(2, *([1] * nd)), lambda d: d.repeat(2, *([1] * nd))),
+          ("detach-unsqueeze0", lambda o: o.detach().unsqueeze(0), lambda d: d.unsqueeze(0))]
+    for pos in range(nb + 1):
+        cs.append((f"unsqueeze{pos}", lambda o, pos=pos: o.unsqueeze(pos), lambda d, pos=pos: d.unsqueeze(pos)))
+        cs.append((f"unsqueezeneg{pos}", lambda o, pos=pos: o.unsqueeze(pos - nd - 1), lambda d, pos=pos: d.unsqueeze(pos)))
+        cs.append((f"unsq-squeeze{pos}", lambda o, pos=pos: o.unsqueeze(pos).squeeze(pos), lambda d: d))
+    for p in itertools.permutations(range(nb)):
+        if list(p) != list(range(nb)):
+            nm = "".join(map(str, p))
+            cs.append((f"permute{nm}", lambda o, p=p: o.permute(*p, nb, nb + 1), lambda d, p=p: d.permute(*p, nb, nb + 1)))
+    for pos in range(nb):
+        rep = [1] * nd
+        rep[pos] = 2
+        cs.append((f"repeat{pos}", lambda o, rep=tuple(rep): o.repeat(*rep), lambda d, rep=tuple(rep): d.repeat(*rep)))
+        cs.append((f"sum{pos}", lambda o, pos=pos: o.sum(pos), lambda d, pos=pos: d.sum(pos)))
+    return cs
+
+
+def run_mixed(R, chk, thorough):
+    """Two-step programs: a binary operation (@, +, elementwise *) between operands of DIFFERENT batch ranks (fewer batch dims,
+    unbatched, size-1 dims) followed by every unary batch rewrite of the lazy result — value and shape against dense torch."""
+    import random
+    rng = random.Random(f"{PID}:mixed:{chk.seed}")
+    dtype = torch.float64
+    kinds = list(MIX_KINDS)
+    insts = {}
+
+    def get(batch):
+        if batch not in insts:
+            its = [it for it in build_insts(rng, dtype, batch, 3, False) if it.shape[-2:] == (3, 3) and "f32only" not in it.tags]
+            insts[batch] = its
+        return insts[batch]
+    for kind in kinds:
+        ba, bb = MIX_KINDS[kind]
+        for a in get(ba):
+            for b in get(bb):
+                if a.name not in MIX_SMALL and b.name not in MIX_SMALL:
+                    continue
+                for op in pair_ops(a, b):
+                    if op == "sub":
+                        continue
+                    if not thorough and kind != "32v2":
+                        h = zlib.crc32(f"{a.cname}|{b.cname}|{op}".encode())
+                        if kinds[1 + (h + chk.seed) % (len(kinds) - 1)] != kind:
+                            continue
+                    try:
+                        res = PYOP[op](a.build(), b.build())
+                        dres = PYOP[op](a.dense, b.dense)
+                    except Exception:
+                        continue   # the binary step itself is the pairs part's business
+                    if not is_op(res) or tuple(res.shape) != tuple(dres.shape):
+                        continue
+                    exact = op != "mul" or a.name.split("[")[0] in DIAGLIKE + ("Dense", "Zero") or b.name.split("[")[0] in ("Dense", "Zero")
+                    for name, fi, fs in rewrite_cases(tuple(dres.shape)):
+                        cell = f"C02/mixed/{op}/{a.cname}/{b.cname}/b={kind}/{name}"
+                        desc = f"{name}({a.name}{list(ba)} {op} {b.name}{list(bb)})"
+                        chk.count("op:mixed-" + name.rstrip("0123456789"))
+                        R.record(cell, desc, lambda fi=fi, a=a, b=b, op=op: fi(PYOP[op](a.build(), b.build())), lambda fs=fs: fs(dres),
+                                 {"part": "mixed", "op": op, "a": a.name, "b": b.name, "kind": kind, "case": name},
+                                 exact=exact and a.exact and b.exact, opkind=name.replace("unsq-", "unsqueeze-"))
+
+
 # ----------------------------------------------------------------------------------------------- operand re-use
 def reuse_steps(it):
     """Read-only uses of ONE operator object, in sequence: (name, impl(o), spec(d))."""
@@ -1164,7 +1281,7 @@ def run(chk):
                 "either side) x {+,-,elementwise *,@} x batch-shape pairs {same, none, left/right unbatched, 1 vs 3, (2,1) vs (3,)} "
                 "(quick: `same` for every pair plus one seed-rotated other kind); (2) every instance x scalar kind x {*, r*, /}; "
                 "(3) every instance x unary rewrite (transpose, repeat, expand, unsqueeze/squeeze, permute, sum/prod over batch and "
-                "matrix dims, add_diagonal x3 shapes, add_jitter, add_low_rank, cat_rows, cat); (3b) every instance with THREE batch dims of different sizes (plus Cat along each batch dim with unequal pieces) x every batch permutation in S3 (positive / negative dims, applied twice), transpose of every batch pair, unsqueeze/squeeze/expand at every position, repeat/sum/prod over each batch dim; (3a) the pair / scalar / unary sweeps with n = 1 (1x1 instance of every class, size-1 batches, all batch kinds, every case with a model line); (3c) one operator OBJECT used by a sequence of read-only operations, operand checked after each; (4) seed-random expression programs "
+                "matrix dims, add_diagonal x3 shapes, add_jitter, add_low_rank, cat_rows, cat); (3b) every instance with THREE batch dims of different sizes (plus Cat along each batch dim with unequal pieces) x every batch permutation in S3 (positive / negative dims, applied twice), transpose of every batch pair, unsqueeze/squeeze/expand at every position, repeat/sum/prod over each batch dim; (3a) the pair / scalar / unary sweeps with n = 1 (1x1 instance of every class, size-1 batches, all batch kinds, every case with a model line); (3d) two-step programs: @, +, * between operands of different batch ranks followed by every unary batch rewrite of the lazy result; (3c) one operator OBJECT used by a sequence of read-only operations, operand checked after each; (4) seed-random expression programs "
                 "of depth <= 3 (quick) / 5 (thorough).  distinct = distinct (cell description); non-trivial = dense result has more "
                 "than one entry and is not all zero.  Each case: implementation vs dense torch expression (value, shape, dtype), and "
                 "for modelled classes implementation vs Lean model (class tree exact, values exact on the first batch element).")
@@ -1175,8 +1292,8 @@ def run(chk):
     chk.prove("LinOp.Properties.C02", ["LinOp/C02", "LinOp/Generated/C02Table.lean", "LinOp/Core/Parse.lean", "LinOp/Core/Basic.lean",
                                        "LinOp/Core/Bridge.lean"])
     R = Runner(chk)
-    parts = os.environ.get("C02_PARTS", "pairs,scalars,unary,size1,batch3,reuse,programs").split(",")
-    for name, fn in (("pairs", run_pairs), ("scalars", run_scalars), ("unary", run_unary), ("size1", run_size1), ("batch3", run_batch3), ("reuse", run_reuse), ("programs", run_programs)):
+    parts = os.environ.get("C02_PARTS", "pairs,scalars,unary,size1,batch3,mixed,reuse,programs").split(",")
+    for name, fn in (("pairs", run_pairs), ("scalars", run_scalars), ("unary", run_unary), ("size1", run_size1), ("batch3", run_batch3), ("mixed", run_mixed), ("reuse", run_reuse), ("programs", run_programs)):
         t = time.time()
         if name in parts:
             fn(R, chk, thorough)
@@ -1207,6 +1324,8 @@ def replay(chk, payload):
         run_batch3(R, chk, thorough)
     elif part == "reuse":
         run_reuse(R, chk, thorough)
+    elif part == "mixed":
+        run_mixed(R, chk, thorough)
     elif part == "prog":
         run_programs(R, chk, thorough, progs=[(tuple(pl["batch"]), eval(pl["dtype"]), pl["pseed"], pl["depth"])])
     else:
